@@ -94,15 +94,32 @@ func blockedFrames(dump string) string {
 			set[pkg+"."+fn] = struct{}{}
 		}
 	}
-	var fs []string
+	// the cycle is among the cache manager's locks; goroutines queued behind it elsewhere (bbolt's
+	// writer lock, an item cache mutex) are victims and would make the signature unstable
+	var fs, core []string
 	for f := range set {
 		fs = append(fs, f)
+		if strings.HasPrefix(f, "cache.Manager.") || strings.HasPrefix(f, "cache.Transaction.") {
+			core = append(core, f)
+		}
+	}
+	if len(core) > 0 {
+		fs = core
+	}
+	// the known cycle: a reader's deferred checkAndPrune (holding its RLock) against a writer's
+	// two With calls (transaction mutex / manager mutex); a Commit of another transaction queued
+	// on the manager mutex is a victim
+	if _, a := set["cache.Manager.checkAndPrune"]; a {
+		if _, b := set["cache.Transaction.With"]; b {
+			fs = []string{"cache.Manager.checkAndPrune", "cache.Transaction.With"}
+		}
 	}
 	sort.Strings(fs)
 	return strings.Join(fs, "+")
 }
 
 func childStress(config, dir string, seed uint64, ms int) {
+	rp := fmt.Sprintf("stress %s seed=%d ms=%d", config, seed, ms)
 	mode, warm, _ := strings.Cut(config, "/")
 	rng := vh.NewRng(seed ^ 0x5bd1e995)
 	env := &stressEnv{kinds: map[string]int{}}
@@ -151,7 +168,7 @@ func childStress(config, dir string, seed uint64, ms int) {
 				pprof.Lookup("goroutine").WriteTo(&buf, 2)
 				os.WriteFile(filepath.Join(dir, "goroutines.txt"), buf.Bytes(), 0o644)
 				fr := blockedFrames(buf.String())
-				env.fail("deadlock:"+fr, "no search or batch completed for 12 s; goroutines parked in: "+fr, "stress "+config)
+				env.fail("deadlock:"+fr, "no search or batch completed for 12 s; goroutines parked in: "+fr, rp)
 				finish()
 			}
 		}
@@ -237,7 +254,7 @@ func childStress(config, dir string, seed uint64, ms int) {
 			defer wg.Done()
 			defer func() {
 				if p := recover(); p != nil {
-					env.fail("writer-panic:"+normErr(fmt.Sprint(p)), fmt.Sprint(p), "stress "+config)
+					env.fail("writer-panic:"+normErr(fmt.Sprint(p)), fmt.Sprint(p), rp)
 				}
 			}()
 			live := append([]uuid.UUID{}, pools[w]...)
@@ -303,7 +320,7 @@ func childStress(config, dir string, seed uint64, ms int) {
 					var got []uuid.UUID
 					got, err = sh.UpdatePoints(pts)
 					if err == nil && len(got) != len(b.Ids) {
-						env.fail("update-reported-ids", fmt.Sprintf("update of %d live points reported %d ids", len(b.Ids), len(got)), "stress "+config)
+						env.fail("update-reported-ids", fmt.Sprintf("update of %d live points reported %d ids", len(b.Ids), len(got)), rp)
 					}
 				case c < 95:
 					b.Kind = "delete"
@@ -316,7 +333,7 @@ func childStress(config, dir string, seed uint64, ms int) {
 					got, err = sh.DeletePoints(set)
 					if err == nil {
 						if len(got) != len(b.Ids) {
-							env.fail("delete-reported-ids", fmt.Sprintf("delete of %d live points reported %d ids", len(b.Ids), len(got)), "stress "+config)
+							env.fail("delete-reported-ids", fmt.Sprintf("delete of %d live points reported %d ids", len(b.Ids), len(got)), rp)
 						}
 						keep := live[:0]
 						for _, id := range live {
@@ -333,14 +350,14 @@ func childStress(config, dir string, seed uint64, ms int) {
 					d := mkDoc(1, 1, 1, myRev)
 					err = sh.InsertPoints([]models.Point{{Id: id, Data: encodeDoc(d)}, {Id: id, Data: encodeDoc(d)}})
 					if err == nil {
-						env.fail("duplicate-accepted", "insert batch with a repeated id was accepted", "stress "+config)
+						env.fail("duplicate-accepted", "insert batch with a repeated id was accepted", rp)
 					}
 					err = nil
 					b.Failed = true
 				}
 				if err != nil {
 					b.Failed = true
-					env.fail("write-failed:"+normErr(err.Error()), b.Kind+" batch failed: "+err.Error(), "stress "+config)
+					env.fail("write-failed:"+normErr(err.Error()), b.Kind+" batch failed: "+err.Error(), rp)
 				}
 				if !b.Failed {
 					b.Seq = hub.lastSeqOfCaller()
@@ -408,7 +425,7 @@ func childStress(config, dir string, seed uint64, ms int) {
 	for _, b := range batches {
 		if !b.Failed {
 			if b.Seq < 0 {
-				env.fail("commit-not-numbered", "a successful batch was not seen by the storage proxy", "stress "+config)
+				env.fail("commit-not-numbered", "a successful batch was not seen by the storage proxy", rp)
 				continue
 			}
 			committed = append(committed, b)
@@ -455,7 +472,7 @@ func childStress(config, dir string, seed uint64, ms int) {
 			if o.hi > o.lo {
 				env.res.Overlap++
 			}
-			rp := fmt.Sprintf("stress %s seed=%d query=%s window=[%d,%d]", config, seed, o.q, o.lo, o.hi)
+			rp := fmt.Sprintf("stress %s seed=%d ms=%d query=%s window=[%d,%d]", config, seed, ms, o.q, o.lo, o.hi)
 			switch {
 			case o.panicV != "":
 				k := "panic:" + normErr(o.panicV)
@@ -534,24 +551,24 @@ func childStress(config, dir string, seed uint64, ms int) {
 		return err
 	})
 	if err != nil {
-		env.fail("final-dump-failed", err.Error(), "stress "+config)
+		env.fail("final-dump-failed", err.Error(), rp)
 	}
 	diff := 0
 	for id, d := range final {
 		if got[id] != d {
 			diff++
 			if diff <= 2 {
-				env.fail("final-state-mismatch", fmt.Sprintf("point %s: stored %q, sequential application of the %d successful batches in commit order gives %q", id, got[id], len(committed), d), fmt.Sprintf("stress %s seed=%d", config, seed))
+				env.fail("final-state-mismatch", fmt.Sprintf("point %s: stored %q, sequential application of the %d successful batches in commit order gives %q", id, got[id], len(committed), d), rp)
 			}
 		}
 	}
 	for id := range got {
 		if _, ok := final[id]; !ok {
-			env.fail("final-state-mismatch", fmt.Sprintf("point %s is stored but deleted in the sequential model", id), fmt.Sprintf("stress %s seed=%d", config, seed))
+			env.fail("final-state-mismatch", fmt.Sprintf("point %s is stored but deleted in the sequential model", id), rp)
 		}
 	}
 	if int(count) != len(final) {
-		env.fail("final-state-mismatch", fmt.Sprintf("point count %d, sequential model %d", count, len(final)), fmt.Sprintf("stress %s seed=%d", config, seed))
+		env.fail("final-state-mismatch", fmt.Sprintf("point count %d, sequential model %d", count, len(final)), rp)
 	}
 
 	// ---------------------------------------------------------------- quiescent: warm = cold
@@ -586,11 +603,11 @@ func childStress(config, dir string, seed uint64, ms int) {
 			if strings.Contains(w.Err, "point does not exist") {
 				k = "point-does-not-exist-after-quiescence"
 			}
-			env.fail(k, fmt.Sprintf("after the writers finished, query %s: warm answer %.300s ; cold answer (reopened copy) %.300s", q, ws, cs), fmt.Sprintf("stress %s seed=%d query=%s", config, seed, q))
+			env.fail(k, fmt.Sprintf("after the writers finished, query %s: warm answer %.300s ; cold answer (reopened copy) %.300s", q, ws, cs), fmt.Sprintf("stress %s seed=%d ms=%d query=%s", config, seed, ms, q))
 		}
 		for _, h := range c.Hits {
 			if final[h.Id] != h.Doc {
-				env.fail("cold-answer-not-final-state", fmt.Sprintf("cold answer returns %s with %q; final state has %q", h.Id, h.Doc, final[h.Id]), fmt.Sprintf("stress %s seed=%d query=%s", config, seed, q))
+				env.fail("cold-answer-not-final-state", fmt.Sprintf("cold answer returns %s with %q; final state has %q", h.Id, h.Doc, final[h.Id]), fmt.Sprintf("stress %s seed=%d ms=%d query=%s", config, seed, ms, q))
 			}
 		}
 	}
